@@ -45,6 +45,7 @@ func (e *Engine) BuildVC(fn *ssa.Function) (vc *FnVC) {
 	vc.top = fr
 	st := &state{reach: "true", regs: map[*ssa.Alloc]string{}, heap: map[string]string{}, ep: vc.newEpoch()}
 	st.alloc = vc.declare("alloc0", "Int")
+	st.ep.alloc = "alloc0"
 	vc.emit("(assert (> alloc0 0))")
 	fr.params = map[string]val{}
 	for _, p := range fn.Params {
@@ -251,6 +252,9 @@ func (vc *FnVC) frameCheck(fr *frame, fin *state, sp *FuncSpec, vars map[string]
 						add(l, mv.t)
 					} else if id != nil && id.Name == "heap" {
 						name := x.Args[0].String()
+						if es, ok := x.Args[0].(*EStr); ok {
+							name = es.V
+						}
 						for _, h := range vc.eng.heapNames() {
 							if strings.HasSuffix(h, ":"+name) || strings.HasSuffix(h, "."+name) || strings.HasSuffix(h, "/"+name) {
 								add(h, "*")
